@@ -175,6 +175,12 @@ def r18_2(ctx, m):
             else:
                 ctx.violated("R18.2", dec.where(st), f"shape condition `{norm(st.test)[:90]}` is a bare assert: an AssertionError escapes the ordering function and aborts the chromosome loop (no handler in the caller)", key_of(dec, f"bare-assert:{norm(st.test)}"))
         elif isinstance(st, ast.Raise):
+            if st.exc is not None and norm(st.exc).split("(")[0] == "AssertionError":
+                # `raise AssertionError` on the else of an exhaustive dispatch is `assert False` written out
+                ok, why = exhaustive_else(dec, st, stored_consts)
+                if ok:
+                    ctx.holds("R18.2", dec.where(st), "`raise AssertionError` sits on the else of an exhaustive dispatch over constants assigned in this function (unreachable)", why=why)
+                    continue
             h = handled_by(dec, st)
             n_shape += 1
             if h is None:
